@@ -12,13 +12,13 @@ CHECKS = {
              "evaluates: run on the library's GENERATED 1-D routines from the code of any central state, any width with n*w <= 64, it returns the true growth function of the "
              "Schreier graph on states; it asserts exactly when an inverse is missing or duplicated (C11_numpy_bfs_encoded_growth, C11_np_inverse_index_err_iff). Bit-mask engine: "
              "a statement-level model of the WHOLE engine (chunks by suffix, black/last/gray sets of ranks, materialise - apply - route - paint - flush, both stopping rules, the "
-             "np.roll grouping's IndexError) returns exactly the true layer sizes from any start permutation, generators not necessarily inverse-closed; it succeeds on the "
-             "documented domain and every outcome is characterised (C11_bitmask_bfs_growth, C11_bitmask_bfs_from_outcomes, C11_bitmask_bfs_from_total, C11_step_inv, "
+             "grouping by chunk as repaired by fix F26) returns exactly the true layer sizes from any start permutation, generators not necessarily inverse-closed; it succeeds on "
+             "EVERY valid input and fails (AssertionError) exactly on invalid input (C11_bitmask_bfs_from_valid, C11_bitmask_bfs_from_outcomes, C11_bitmask_bfs_from_total, C11_step_inv, "
              "C11_rank_unrank ...). Main BFS: C01. Tie: NumpyBfs.v, Bitmask.v and BitmaskEngine.v evaluated in Coq on the implementation's runs with exact equality (bit-mask "
              "engine: n=9 families incl. a random non-inverse-closed pair from a random start, with and without depth limit; n=10 thorough; error classes outside the domain); "
              "all four engines compared with the main BFS and a naive Python BFS.",
         note="Trusted: as C01/C07; numba-compiled helpers and np.unique/np.roll grouping of the bit-mask engine are abstracted in the model (painting is idempotent and "
-             "order-independent; the one semantic effect, the IndexError, is modelled) and validated by the whole-engine correspondence. The 4-bit packing of permutations used by "
+             "order-independent; the one failure left, painting an empty array, is modelled and proved unreachable) and validated by the whole-engine correspondence. The 4-bit packing of permutations used by "
              "the bit-mask engine is the C02 codec at width 4.",
         technique="Coq proof (all four engines: interactive, unthinned walk, NumPy end-to-end on encoded states, bit-mask whole engine) + model/implementation correspondence + cross-engine comparison",
         design="7 (C11)"),
@@ -188,7 +188,10 @@ CHECKS = {
         text="Coq theorems about a statement-by-statement Gallina model of BfsAlgorithm.bfs (hash-sorted de-duplication, binary-search subtraction of seen layers, "
              "batched expansion with cross-batch subtraction, two-layer window for inverse-closed generators, the three breaks): for EVERY graph instance, non-empty start "
              "list, configuration and callback, under NoColl (hash injective on the states of the run) an exhaustive run reports exactly the textbook layers, which are proved "
-             "to be the distance classes (ref_layers_dist); it reports completion when no limit can fire; two configurations give the same sizes and layer sets. "
+             "to be the distance classes (ref_layers_dist); it reports completion when no limit can fire; two configurations give the same sizes and layer sets. END TO END "
+             "(InstPerm/InstBfs/InstMatrixBfs): for the concrete implementation model impl_of d of any well-formed permutation or matrix description all structural hypotheses "
+             "are discharged, NoColl is the only one left, and for one-word identity-hash codes none is left (C01_perm_identity_hash_unconditional); every run records how many "
+             "of its cases satisfy these hypotheses. "
              "Tie: the model is evaluated in Coq on the same zoo cases as the implementation (permutation/matrix, directed, multi-word, batched) and every observable "
              "(sizes, stored layers in order, per-layer hashes, edge list, flag) must be equal; hash constants regenerated by T1; isin_via_searchsorted haystacks monitored; "
              "naive Python BFS oracle evaluates the property itself.",
